@@ -188,3 +188,91 @@ void h_edit_import(void) {
   CHECK(src.data == buf && src.size == in_n, "edit_import: the source slice is not modified");
   CANARY();
 }
+
+/* ------------------------------------------------------------------------
+ * edit.import2 (bounded in the number of records, not in their length):
+ * arbitrary bytes of arbitrary length holding at most two records.  The
+ * decoded edit must equal what the reference decoder of contracts/edit.h
+ * yields: every malformed / truncated / unknown-tag input is rejected, each
+ * tag sets exactly its field, a later scalar overrides an earlier one, list
+ * entries are appended in order, everything else keeps its initial value.
+ * The real varint / slice readers run (no contracts replaced).
+ */
+#define SAME_VIEW(b, p, n) ((b).size == (n) && (b).data == (p))
+
+static void ref_check_scalar(const ldb_edit_t *e, const ref_rec_t *A, const ref_rec_t *B, int nrec) {
+  /* the record that decides a scalar field is the last one with its tag */
+  const ref_rec_t *R;
+#define LAST_WITH(t) ((nrec >= 2 && B->tag == (t)) ? B : (nrec >= 1 && A->tag == (t)) ? A : (const ref_rec_t *)0)
+  R = LAST_WITH(1);
+  CHECK(e->has_comparator == (R != 0), "edit_import: has_comparator set iff a tag-1 record was decoded");
+  CHECK(R ? SAME_VIEW(e->comparator, R->k1, R->k1n) : (e->comparator.size == 0), "edit_import: comparator = the length-prefixed name of the last tag-1 record");
+  R = LAST_WITH(2);
+  CHECK(e->has_log_number == (R != 0) && e->log_number == (R ? R->num : 0), "edit_import: tag 2 sets exactly log_number (varint64 at that position)");
+  R = LAST_WITH(9);
+  CHECK(e->has_prev_log_number == (R != 0) && e->prev_log_number == (R ? R->num : 0), "edit_import: tag 9 sets exactly prev_log_number");
+  R = LAST_WITH(3);
+  CHECK(e->has_next_file_number == (R != 0) && e->next_file_number == (R ? R->num : 0), "edit_import: tag 3 sets exactly next_file_number");
+  R = LAST_WITH(4);
+  CHECK(e->has_last_sequence == (R != 0) && e->last_sequence == (R ? R->num : 0), "edit_import: tag 4 sets exactly last_sequence");
+}
+
+void h_edit_import2(void) {
+  IN_SIZE(in_n); IN_BUF(buf, in_n); SNAP_BUF(buf, in_n);
+  ldb_edit_t edit; ldb_slice_t src; int r;
+  ref_rec_t A, B; size_t la, lb = 0; int nrec, bad;
+  size_t ecp, edel, enew;
+  src.data = buf; src.size = in_n; src.alloc = 0;
+  g_edit = &edit; g_src = buf; g_srcn = in_n; g_ncp = 0; g_ndel = 0; g_nnew = 0; g_exact_set = 1;
+  /* reference decoding of up to two records */
+  nrec = 0; bad = 0;
+  if (in_n > 0) {
+    la = ref_record(&A, buf, in_n);
+    if (la == 0) bad = 1;
+    else {
+      nrec = 1;
+      if (in_n - la > 0) {
+        lb = ref_record(&B, buf + la, in_n - la);
+        if (lb == 0) bad = 1;
+        else { nrec = 2; ASSUME(la + lb == in_n); /* bound of this unit: at most two records */ }
+      }
+    }
+  }
+  ldb_edit_init(&edit);
+  r = ldb_edit_import(&edit, &src);
+  CHECK(r == (bad ? 0 : 1), "edit_import: returns 1 iff every record is well formed (known tag, complete fields, level < 7, keys >= 8 bytes)");
+  if (r == 1) {
+    ref_check_scalar(&edit, &A, &B, nrec);
+    ecp = (nrec >= 1 && A.tag == 5) + (nrec >= 2 && B.tag == 5);
+    edel = (nrec >= 1 && A.tag == 6) + (nrec >= 2 && B.tag == 6);
+    enew = (nrec >= 1 && A.tag == 7) + (nrec >= 2 && B.tag == 7);
+    CHECK(g_ncp == ecp && edit.compact_pointers.length == ecp, "edit_import: one compact pointer per tag-5 record");
+    CHECK(g_ndel == edel, "edit_import: one deleted-file entry per tag-6 record");
+    CHECK(g_nnew == enew && edit.new_files.length == enew, "edit_import: one new file per tag-7 record");
+    if (ecp >= 1) {
+      const ref_rec_t *R = (A.tag == 5) ? &A : &B;
+      CHECK(g_cp[0]->level == (int)R->level && SAME_VIEW(g_cp[0]->key, R->k1, R->k1n), "edit_import: compact pointer = (level, length-prefixed key) of the record");
+    }
+    if (ecp == 2)
+      CHECK(g_cp[1]->level == (int)B.level && SAME_VIEW(g_cp[1]->key, B.k1, B.k1n), "edit_import: second compact pointer appended after the first");
+    if (edel >= 1) {
+      const ref_rec_t *R = (A.tag == 6) ? &A : &B;
+      CHECK(g_del[0].level == (int)R->level && g_del[0].number == R->num, "edit_import: deleted file = (level, varint64 number) of the record");
+    }
+    if (edel == 2)
+      CHECK(g_del[1].level == (int)B.level && g_del[1].number == B.num, "edit_import: second deleted file handed to the set");
+    if (enew >= 1) {
+      const ref_rec_t *R = (A.tag == 7) ? &A : &B;
+      CHECK(g_new[0]->level == (int)R->level && g_new[0]->meta.number == R->num && g_new[0]->meta.file_size == R->fsize &&
+            SAME_VIEW(g_new[0]->meta.smallest, R->k1, R->k1n) && SAME_VIEW(g_new[0]->meta.largest, R->k2, R->k2n),
+            "edit_import: new file = (level, number, size, smallest, largest) in this order");
+      CHECK(g_new[0]->meta.refs == 0 && g_new[0]->meta.allowed_seeks == (1 << 30), "edit_import: new file metadata starts unreferenced with the default seek allowance");
+    }
+    if (enew == 2)
+      CHECK(g_new[1]->level == (int)B.level && g_new[1]->meta.number == B.num && g_new[1]->meta.file_size == B.fsize &&
+            SAME_VIEW(g_new[1]->meta.smallest, B.k1, B.k1n) && SAME_VIEW(g_new[1]->meta.largest, B.k2, B.k2n),
+            "edit_import: second new file appended after the first");
+  }
+  CHECK(src.data == buf && src.size == in_n, "edit_import: the source slice is not modified");
+  CANARY();
+}
